@@ -421,7 +421,7 @@ def classify(cfg, hdr, ops, k, exp, obs):
 
 
 def run_pair(drv, orc, groups):
-    obs = core.run_grouped_parallel(drv, groups, nchunks=4, timeout=120)
+    obs = core.run_grouped_parallel(drv, groups, nchunks=4, timeout=1800, cpu=120)
     exp = core.run_grouped_parallel(orc, groups, nchunks=4, timeout=120)
     return obs, exp
 
